@@ -183,14 +183,43 @@ def run(ck):
             ck.ob("C05-O5", sitestr(f, n), own, "write to compressFile's own output file" if own else "rotation code writes to %s" % describe(n.get("obj")), key="rotation-writes|%s" % strip_tmpl(f.name).split("::")[-1])
 
 
+def strip_path_encoding(f, x):
+    """the QString path behind `QFile::encodeName(path).constData()`, `path.toLocal8Bit().data()`, `path.toStdString().c_str()`"""
+    x = deref_local(f, x)
+    for _ in range(6):
+        y = skip_copies(x)
+        if not isinstance(y, dict) or y.get("k") != "call":
+            break
+        short = (y.get("callee") or "").split("::")[-1]
+        if y.get("ck") == "member" and short in ("constData", "data", "c_str", "toLocal8Bit", "toUtf8", "toStdString", "toLatin1") and isinstance(y.get("obj"), dict) and not [a for a in y.get("args", []) if a.get("k") != "defaultarg"]:
+            x = deref_local(f, y["obj"])
+            continue
+        if strip_tmpl(y.get("callee") or "") in ("QFile::encodeName", "QString::toLocal8Bit", "QDir::toNativeSeparators") and y.get("args"):
+            x = deref_local(f, y["args"][0])
+            continue
+        break
+    return x
+
+
 def allowed_destructive(S, f, n, k):
     short = strip_tmpl(f.name).split("::")[-1]
+    if f.id == S.m["rotate"].id and k == "remove":
+        # removing the name the active file is about to be renamed to: the index is one past every existing rotated file
+        # (C09-O3 / the next-index rules), so nothing carries that name; with a stale file under it the removal is what
+        # lets the rotation go on
+        a = n.get("args", [])
+        tgt = strip_path_encoding(f, a[0]) if len(a) == 1 else None
+        if isinstance(tgt, dict) and skip_copies(tgt).get("k") == "call" and skip_copies(tgt).get("fn") == S.m["generateRotatedFileName"].id:
+            rn = [x for x in f.calls() if destructive_kind(x) == "rename" and len(x.get("args", [])) == 2 and skip_copies(strip_path_encoding(f, x["args"][1])).get("id") == skip_copies(tgt).get("id")]
+            if rn:
+                return True, "removes the fresh target name of the rename that follows"
+        return False, "remove(%s)" % describe(a[0] if a else None)[:40]
     if f.id == S.m["rotate"].id and k == "rename":
         a = n.get("args", [])
         if len(a) != 2:
             return False, "unexpected arity"
-        src = deref_local(f, a[0])
-        dst = deref_local(f, a[1])
+        src = strip_path_encoding(f, a[0])
+        dst = strip_path_encoding(f, a[1])
         oks = is_call(src, ("QFile::fileName", "QFileDevice::fileName")) and S.is_active_file(skip_copies(src).get("obj"))
         okd = isinstance(skip_copies(dst), dict) and skip_copies(dst).get("k") == "call" and skip_copies(dst).get("fn") == S.m["generateRotatedFileName"].id
         if oks and okd:
